@@ -24,6 +24,7 @@ import importlib
 import json
 import os
 import random
+import re
 import sys
 import time
 import traceback
@@ -149,7 +150,10 @@ def main(argv):
         broken.append({"kind": "build", "what": "model/driver does not build", "log": log[-3000:]})
     ok_proofs, log = core.lake_build(targets)
     if not ok_proofs and ok_model:
-        broken.append({"kind": "build", "what": f"{mod.LEAN_MODULE} does not build", "log": log[-3000:]})
+        failed = sorted(set(re.findall(r"^- (SnowProofs\.[\w.]+)", log, re.M))) or [mod.LEAN_MODULE]
+        broken.append({"kind": "build", "what": " and ".join(failed) + " does not build"
+                       + (" (regeneration tie: a generated formula no longer equals the hand model)"
+                          if any(".GenTie." in f for f in failed) else ""), "log": log[-3000:]})
 
     # 3. audit ----------------------------------------------------------------
     thms = [t["name"] for t in mod.THEOREMS]
@@ -159,7 +163,9 @@ def main(argv):
     if forb:
         broken.append({"kind": "audit", "what": "forbidden construct: " + "; ".join(forb[:5])})
     if ok_proofs:
-        audit_res, audit_out = core.audit_theorems(mod.LEAN_MODULE, thms, prop_id)
+        audit_mods = [mod.LEAN_MODULE] + [t for t in getattr(mod, "extra_lean_targets", [])
+                                          if t.startswith("SnowProofs.")]
+        audit_res, audit_out = core.audit_theorems(audit_mods, thms, prop_id)
         for t in thms:
             ok, ax = audit_res[t]
             if ok and not forb:
